@@ -19,10 +19,14 @@ pub struct Variable {
 impl Variable {
     pub(crate) fn new(span: Span, ident: Ident, local: &LocalEnv) -> Result<Self, Error> {
         if local.variable(&ident).is_none() {
-            let idents = local
+            let mut idents = local
                 .variable_idents()
                 .map(std::clone::Clone::clone)
                 .collect::<Vec<_>>();
+
+            // The bindings live in a `HashMap`: sort the candidates so that the
+            // "did you mean" suggestion does not depend on its iteration order.
+            idents.sort();
 
             return Err(Error::undefined(ident, span, idents));
         }
